@@ -127,7 +127,7 @@ func genString(t *rapid.T) string {
 	}
 	rs := rapid.SliceOfN(rapid.SampledFrom(alphabet), 0, 10).Draw(t, "runes")
 	s := string(rs)
-	switch rapid.IntRange(0, 7).Draw(t, "tail") {
+	switch rapid.IntRange(0, 11).Draw(t, "tail") {
 	case 0:
 		s += `\`
 	case 1:
@@ -139,6 +139,22 @@ func genString(t *rapid.T) string {
 }
 
 var numbers = []string{"0", "-0", "1", "-1", "42", "3.14", "-2.5e10", "1E-7", "1e+3", "0.000001", "9007199254740993", "-9223372036854775808", "1.7976931348623157e308", "123456789012345678901234567890"}
+
+func genRoot(t *rapid.T, depth int) *Node {
+	if depth <= 0 {
+		return genNode(t, 0)
+	}
+	// a container at the root (what handlers send), at least one element
+	for {
+		n := genNode(t, depth)
+		if (n.K == "arr" && len(n.A) > 0) || (n.K == "obj" && len(n.O) > 0) {
+			return n
+		}
+		if rapid.IntRange(0, 9).Draw(t, "scalar-root") == 0 {
+			return n
+		}
+	}
+}
 
 func genNode(t *rapid.T, depth int) *Node {
 	k := rapid.IntRange(0, 11).Draw(t, "kind")
@@ -364,12 +380,12 @@ var thresholds = []string{"", "", "", "0", "1", "64", "256", "1000", "4096", "10
 
 func gen(t *rapid.T) Case {
 	depth := rapid.SampledFrom([]int{0, 1, 1, 2, 2, 3, 3}).Draw(t, "depth")
-	if rapid.IntRange(0, 2).Draw(t, "case") == 0 {
-		n := genNode(t, depth)
+	if rapid.Bool().Draw(t, "case") {
+		n := genRoot(t, depth)
 		text, style := genText(t, n)
 		return Case{Kind: "minify", Text: text, Style: style}
 	}
-	c := Case{Kind: "writer", Body: "value", Value: genNode(t, depth)}
+	c := Case{Kind: "writer", Body: "value", Value: genRoot(t, depth)}
 	if rapid.IntRange(0, 5).Draw(t, "rawbody") == 0 {
 		c.Body = "raw"
 		var sb strings.Builder
@@ -759,7 +775,7 @@ func TestC19(t *testing.T) {
 		Gen:      gen,
 		Oracle:   oracle,
 		Fixed:    fixed,
-		Quick:    6000,
-		Thorough: 150000,
+		Quick:    20000,
+		Thorough: 300000,
 	})
 }
